@@ -75,6 +75,23 @@ pub fn variations(p: &Pos) -> Vec<(&'static str, Pos)> {
             }
         }
     }
+    // exchanges: the contents of two occupied squares swapped (two features at once; in particular two men of
+    // the same kind and opposite colours trading places, which no single-square change can produce)
+    let occ: Vec<usize> = (0..64).filter(|&s| p.b[s] != b'.' && p.b[s].to_ascii_lowercase() != b'k').collect();
+    for (i, &s1) in occ.iter().enumerate() {
+        for &s2 in &occ[i + 1..] {
+            if p.b[s1] == p.b[s2] {
+                continue;
+            }
+            let pawn_on_edge = |c: u8, s: usize| c.to_ascii_lowercase() == b'p' && (s / 8 == 0 || s / 8 == 7);
+            if pawn_on_edge(p.b[s1], s2) || pawn_on_edge(p.b[s2], s1) {
+                continue;
+            }
+            let mut q = p.clone();
+            q.b.swap(s1, s2);
+            v.push(("exchange", q));
+        }
+    }
     v
 }
 
@@ -90,13 +107,13 @@ impl C05 {
             let g = import(&fen)?;
             if let Some(other) = hs.insert(g.hash(), q.fen4()) {
                 return Err(Fail::new(
-                    "single-feature-variation-keeps-hash",
+                    if feature == "exchange" { "two-positions-share-a-hash" } else { "single-feature-variation-keeps-hash" },
                     format!("{} and {} (a {} variation of {}) both hash {:X}", other, q.fen4(), feature, p.fen4(), g.hash()),
                 ));
             }
         }
         ev.evals(n);
-        ev.class_n("single_feature_variations", n);
+        ev.class_n("single_feature_variations_and_exchanges", n);
         ev.class("positions_varied");
         Ok(())
     }
@@ -139,7 +156,7 @@ impl Prop for C05 {
     }
 
     fn rule(&self) -> String {
-        "Cases: generated walks; every position visited (and every legal successor of it) enters the explored set keyed by the reference model's (placement, side, rights, en-passant file); within a shard and again across all shards after the merge, equal engine hashes must mean equal keys. For sampled positions ALL single-feature variations are enumerated (side flipped; each of 4 rights toggled; each of the other 8-9 en-passant values; each non-king square replaced by each of the 10 other contents), imported from text, and must all hash differently from the origin and from each other. evaluations = positions hashed (explored set visits + variations). Non-trivial = every distinct position of the explored set (distinct by key); variation counts are reported separately.".into()
+        "Cases: generated walks; every position visited (and every legal successor of it) enters the explored set keyed by the reference model's (placement, side, rights, en-passant file); within a shard and again across all shards after the merge, equal engine hashes must mean equal keys. For sampled positions ALL single-feature variations are enumerated (side flipped; each of 4 rights toggled; each of the other 8-9 en-passant values; each non-king square replaced by each of the 10 other contents) and all exchanges of the contents of two occupied non-king squares (two men trading places, e.g. a white and a black knight), imported from text, and must all hash differently from the origin and from each other. evaluations = positions hashed (explored set visits + variations). Non-trivial = every distinct position of the explored set (distinct by key); variation counts are reported separately.".into()
     }
 
     fn assumptions(&self) -> Vec<String> {
